@@ -67,7 +67,8 @@ def tables():
 def shards(tier, seed):
     out = [dict(kind=k) for k in
            ('pairs', 'pairs_paren', 'triples', 'prefix', 'postfix',
-            'extents', 'comments', 'flatten', 'split', 'nonsplit')]
+            'extents', 'comments', 'flatten', 'split', 'splitseq',
+            'nonsplit')]
     if tier == 'thorough':
         levels, binprec, assoc, preprec = tables()
         bins = [t for t in binprec if t != '\\in']
@@ -202,6 +203,8 @@ def cases(shard):
             yield dict(kind='flatten', s=s)
     elif k == 'split':
         yield from split_cases()
+    elif k == 'splitseq':
+        yield from splitseq_cases()
     elif k == 'nonsplit':
         for s, why in NON_GR1:
             yield dict(kind='nonsplit', s=s, why=why)
@@ -293,6 +296,36 @@ def split_cases():
                                grouping=grouping)
 
 
+SEQ_SUB = ["(x = 1)", "(p \\/ q)", "(y + 1 < 2)"]
+SEQ_MENU = [
+    [('action', "[] (S => (X r))")],
+    [('action', "[] (S /\\ (x' = x))")],
+    [('init', "S"), ('action', "[] (p => q')")],
+    [('rec', "[]<> (S => q)")],
+    [('init', "S"), ('rec', "[]<> q")],
+    [('rec', "[]<> S")],
+    [('init', "S")],
+    [('action', "[] S")],
+    [('pair', "<>[] S \\/ []<> q")],
+    [('action', "[] (S => (X r))"), ('init', "S")],
+    [('init', "S"), ('action', "[] (S => (X r))")],
+    [('rec', "[]<> S"), ('action', "[] (S \\/ (X S))")],
+]
+
+
+def splitseq_cases():
+    """Two specifications split one after the other in one process.
+
+    Every ordered pair of menu entries over a shared non-terminal
+    subformula: the parts of each must be what they are alone.
+    """
+    for sub in SEQ_SUB:
+        menu = [[(k, t.replace('S', sub)) for k, t in e] for e in SEQ_MENU]
+        for a, b in itertools.product(menu, repeat=2):
+            yield dict(kind='splitseq',
+                       seq=[[list(p) for p in a], [list(p) for p in b]])
+
+
 _P = {}
 
 
@@ -364,6 +397,11 @@ def run_case(case, acc):
         return
     if kind == 'split':
         return run_split(case, acc)
+    if kind == 'splitseq':
+        for parts in case['seq']:
+            if run_split(case, acc, parts=parts) is False:
+                return
+        return
     if kind == 'nonsplit':
         import omega.gr1 as gr1
         acc.ev('n:' + case['s'], nontrivial=True)
@@ -378,10 +416,11 @@ def run_case(case, acc):
                       shape=case['why'])
 
 
-def run_split(case, acc):
+def run_split(case, acc, parts=None):
     import omega.gr1 as gr1
     om, ref = _parsers()
-    parts = case['parts']
+    if parts is None:
+        parts = case['parts']
     s = ' /\\ '.join('(' + p + ')' if k in ('pair',) else p
                       for k, p in parts)
     # unparenthesised top-level conjunction needs care with `=>` etc.;
@@ -389,7 +428,14 @@ def run_split(case, acc):
     s = _group(['(' + p + ')' for k, p in parts],
                case.get('grouping', 'left'))
     acc.ev('s:' + s, nontrivial=len(parts) >= 2)
-    d = gr1.split_gr1(s)
+    try:
+        d = gr1.split_gr1(s)
+    except AssertionError as e:
+        if case['kind'] != 'splitseq':
+            raise
+        acc.violation('split_rejects_gr1_formula_after_another', case,
+                      detail=dict(formula=s, error=repr(e)))
+        return False
     exp = dict(init=[], action=[], recurrence=[], persistence=[])
     for k, p in parts:
         t = ref.parse(p)
@@ -414,7 +460,7 @@ def run_split(case, acc):
             acc.violation('split_returns_wrong_parts', case, detail=dict(
                 formula=s, part=k, got=[fm.show(x) for x in a],
                 expected=[fm.show(x) for x in exp[k]]))
-            return
+            return False
 
 
 def _group(items, how):
